@@ -164,8 +164,22 @@ def make_logit_page(pid):
 
 
 def pd_state(pd):
-    h = None if pd.last_h is None else tuple(np.asarray(pd.last_h._h).reshape(-1).tolist())
-    return (pd.last_line, h)
+    """canonical form of whatever the page decoder carries between calls (today: last_line and the LM state last_h), read generically so that
+    the check does not depend on how the library names or stores it; counters and timers are left out"""
+    out = []
+    for k, v in sorted(vars(pd).items()):
+        if k in ('decoder', 'lines_examined', 'lines_decoded', 'seconds_decoding') or callable(v):
+            continue
+        try:
+            if hasattr(v, 'prepare_for_torch'):
+                t = v.prepare_for_torch()
+                v = tuple(np.asarray(x).reshape(-1).round(6).tolist() for x in (t if isinstance(t, tuple) else (t,)))
+            elif not isinstance(v, (str, int, float, bool, type(None), tuple)):
+                v = type(v).__name__
+        except Exception:  # noqa
+            v = type(v).__name__
+        out.append((k, v))
+    return tuple(out)
 
 
 def check_dec(case, ctx):
